@@ -241,7 +241,7 @@ def gen_post_step(rng, w, has_born, prev_wrote_fc, force_cmd=None):
 
 def gen_spec(seed, index, tier):
     rng = core.rng_of(seed, "c18")
-    names = ["nacl", "nacl_prim", "cscl", "hcp", "bct", "wurtzite", "si", "rutile", "ortho_c", "mono", "rhombo_hex"]
+    names = ["nacl", "nacl_prim", "cscl", "hcp", "bct", "wurtzite", "si", "rutile", "ortho_c", "mono", "rhombo_hex", "perovskite"]
     w = World.generate(seed, names=names, max_atoms=rng.choice([8, 16, 24]))
     smat = np.array(w.supercell_matrix)
     if np.count_nonzero(smat - np.diag(np.diag(smat))) == 0:
